@@ -522,15 +522,17 @@ def render_sweep(rep, r, n):
             ys = [round(y * 2) / 2 for y in ys]
         fl = [r.uniform(1, 10) for _ in range(nsrc)]
         dy, dx, NY, NX = offsets(r, ny, nx)
-        rp = {'api': 'make_model_image', 'shape': [ny, nx], 'x': xs, 'y': ys, 'flux': fl, 'model_shape': ms, 'offset': [dx, dy], 'canvas': [NY, NX]}
-        rep.case(('render', tuple(xs), tuple(ys), dx, dy), dx > 0 and dy > 0, kind='render')
+        dkw = r.choice([{}, {}, {'discretize_method': 'interp'}, {'discretize_method': 'oversample', 'discretize_oversample': r.choice([2, 3, 10])}])
+        rp = {'api': 'make_model_image', 'shape': [ny, nx], 'x': xs, 'y': ys, 'flux': fl, 'model_shape': ms, 'offset': [dx, dy], 'canvas': [NY, NX],
+              'discretize': dkw}
+        rep.case(('render', tuple(xs), tuple(ys), dx, dy, repr(dkw)), dx > 0 and dy > 0, kind='render' + (':' + dkw['discretize_method'] if dkw else ''))
         rep.probe_only += 1
         m = CircularGaussianPRF(fwhm=2.3)
         with warnings.catch_warnings():
             warnings.simplefilter('ignore')
             try:
-                a = make_model_image((ny, nx), m, Table({'x_0': xs, 'y_0': ys, 'flux': fl}), model_shape=ms)
-                b = make_model_image((NY, NX), m, Table({'x_0': [x + dx for x in xs], 'y_0': [y + dy for y in ys], 'flux': fl}), model_shape=ms)
+                a = make_model_image((ny, nx), m, Table({'x_0': xs, 'y_0': ys, 'flux': fl}), model_shape=ms, **dkw)
+                b = make_model_image((NY, NX), m, Table({'x_0': [x + dx for x in xs], 'y_0': [y + dy for y in ys], 'flux': fl}), model_shape=ms, **dkw)
             except Exception as e:                                  # noqa: BLE001
                 rep.violation(f'render-raises:{type(e).__name__}', f'make_model_image raised {e!r}', rp)
                 continue
